@@ -47,6 +47,9 @@ type Case struct {
 	GapLen    int    `json:"gap_len"` // how many bytes were lost there
 	Kind      string `json:"kind"`    // generator stream (for the evidence histogram)
 	Ops       []Op   `json:"ops"`
+	// runs performed before this one on the SAME LanceroSource object (stop, new geometry, start); uninterrupted
+	// well-formed deliveries, their device numbers are those of the case
+	Before []Case `json:"before,omitempty"`
 }
 
 // ---------------------------------------------------------------- scripted card
@@ -366,33 +369,24 @@ func inputTags(c Case, data [][]byte) (tags map[string]bool, nontrivial bool) {
 	return tags, nontrivial
 }
 
-func runCase(c Case) (lib.Result, error) {
-	res := lib.Result{ID: c.ID, Hash: lib.Hash(struct {
-		A, B, C, D, E int
-		O             []int
-		S             string
-		G, L          int
-		Ops           []Op
-	}{c.Ncols, c.Nrows, c.Nsamp, c.Rate, c.Devnum, c.OtherDevs, c.Stream, c.GapPos, c.GapLen, c.Ops})}
-	if c.Ncols < 1 || c.Nrows < 1 || c.Nsamp < 1 || c.Rate < 1 {
-		return res, fmt.Errorf("case %d: bad configuration", c.ID)
-	}
-	data, err := c.chunkData()
-	if err != nil {
-		return res, err
-	}
-	tags, nontrivial := inputTags(c, data)
-
+// runOne performs one run (start ... stop) on the source object *vp (created on the first run)
+func runOne(vp **dastard.VerifLancero, c Case, devnum int, otherDevs []int, data [][]byte, tags map[string]bool) (string, []stepObs, error) {
 	card := NewCard()
-	v, err := dastard.VerifNewLancero(dastard.VerifLanceroConfig{Card: card, Devnum: c.Devnum, Ncols: c.Ncols,
-		Nrows: c.Nrows, OtherDevs: c.OtherDevs, SampleRate: float64(c.Rate), Nsamp: c.Nsamp})
-	if err != nil {
-		return res, err
+	if *vp == nil {
+		nv, err := dastard.VerifNewLancero(dastard.VerifLanceroConfig{Card: card, Devnum: devnum, Ncols: c.Ncols,
+			Nrows: c.Nrows, OtherDevs: otherDevs, SampleRate: float64(c.Rate), Nsamp: c.Nsamp})
+		if err != nil {
+			return "", nil, err
+		}
+		*vp = nv
+	} else if err := (*vp).Restart(card, c.Ncols, c.Nrows, c.Nsamp, float64(c.Rate)); err != nil {
+		// the same source object, stopped, now started again with this run's geometry
+		return "", nil, err
 	}
-	defer v.Cleanup()
+	v := *vp
 	v.Launch()
 	if !card.waitParked(1, 20*time.Second) {
-		return res, fmt.Errorf("case %d: the reader never asked for a buffer", c.ID)
+		return "", nil, fmt.Errorf("case %d: the reader never asked for a buffer", c.ID)
 	}
 
 	const tickTimeout = 30 * time.Second
@@ -485,7 +479,7 @@ func runCase(c Case) (lib.Result, error) {
 		switch o.Op {
 		case "M":
 			if err := drain(); err != nil {
-				return res, err
+				return "", nil, err
 			}
 			v.StartNextBlock() // the mix request is answered by the getNextBlock goroutine; no buffer can arrive meanwhile
 			_, merr := v.ConfigureMix(o.Ch, o.Fr)
@@ -493,18 +487,18 @@ func runCase(c Case) (lib.Result, error) {
 			terms[i] = fmt.Sprintf("(%s, MR %s)", opTerm(o, nil), lib.B(merr == nil))
 		case "C":
 			if o.T <= lastStamp {
-				return res, fmt.Errorf("case %d: time stamps must increase", c.ID)
+				return "", nil, fmt.Errorf("case %d: time stamps must increase", c.ID)
 			}
 			lastStamp = o.T
 			queue := o.Q && !v.Outstanding() && nQueued < 90
 			if !queue {
 				if err := drain(); err != nil {
-					return res, err
+					return "", nil, err
 				}
 			}
 			t, derr := card.deliver(chunk{data: data[i], stamp: o.T}, tickTimeout)
 			if derr != nil {
-				return res, fmt.Errorf("case %d: %v", c.ID, derr)
+				return "", nil, fmt.Errorf("case %d: %v", c.ID, derr)
 			}
 			if queue {
 				// the tick is complete (the reader is parked in its next AvailableBuffer call) and nobody
@@ -522,7 +516,7 @@ func runCase(c Case) (lib.Result, error) {
 					v.StartNextBlock()
 					b, ok := v.Receive(tickTimeout)
 					if !ok {
-						return res, fmt.Errorf("case %d: block not delivered", c.ID)
+						return "", nil, fmt.Errorf("case %d: block not delivered", c.ID)
 					}
 					blk = &b
 				}
@@ -548,14 +542,14 @@ func runCase(c Case) (lib.Result, error) {
 				}
 			}
 			if err := render(i, t, blk, note); err != nil {
-				return res, err
+				return "", nil, err
 			}
 		default:
-			return res, fmt.Errorf("case %d: unknown op %q", c.ID, o.Op)
+			return "", nil, fmt.Errorf("case %d: unknown op %q", c.ID, o.Op)
 		}
 	}
 	if err := drain(); err != nil {
-		return res, err
+		return "", nil, err
 	}
 	// stop as Stop() would: abortSelf, the reader closes buffersChan, getNextBlock closes nextBlock
 	v.Abort()
@@ -564,7 +558,7 @@ func runCase(c Case) (lib.Result, error) {
 	for k := 0; k < 3; k++ {
 		b, ok := v.Receive(20 * time.Second)
 		if !ok {
-			return res, fmt.Errorf("case %d: the source did not shut down", c.ID)
+			return "", nil, fmt.Errorf("case %d: the source did not shut down", c.ID)
 		}
 		if b.Closed {
 			break
@@ -572,8 +566,52 @@ func runCase(c Case) (lib.Result, error) {
 		v.StartNextBlock()
 	}
 
-	res.Term = fmt.Sprintf("mk %s %s", c.header(), lib.List(terms))
-	res.Impl = obs
+	return fmt.Sprintf("mk %s %s", c.header(), lib.List(terms)), obs, nil
+}
+
+func runCase(c Case) (lib.Result, error) {
+	res := lib.Result{ID: c.ID, Hash: lib.Hash(c)}
+	runs := append(append([]Case(nil), c.Before...), c)
+	for _, r := range runs {
+		if r.Ncols < 1 || r.Nrows < 1 || r.Nsamp < 1 || r.Rate < 1 {
+			return res, fmt.Errorf("case %d: bad configuration", c.ID)
+		}
+	}
+	data, err := c.chunkData()
+	if err != nil {
+		return res, err
+	}
+	tags, nontrivial := inputTags(c, data)
+	var v *dastard.VerifLancero
+	defer func() {
+		if v != nil {
+			v.Cleanup()
+		}
+	}()
+	var terms []string
+	var impl [][]stepObs
+	for k, r := range runs {
+		r.ID = c.ID
+		r.Before = nil
+		d := data
+		if k < len(runs)-1 {
+			if d, err = r.chunkData(); err != nil {
+				return res, err
+			}
+			tags["restart"] = true
+			if 2*r.Ncols*r.Nrows == 2*c.Ncols*c.Nrows && (r.Ncols != c.Ncols || r.Nrows != c.Nrows) {
+				tags["restart-same-channel-count-other-shape"] = true
+			}
+		}
+		t, obs, err := runOne(&v, r, c.Devnum, c.OtherDevs, d, tags)
+		if err != nil {
+			return res, err
+		}
+		terms = append(terms, t)
+		impl = append(impl, obs)
+	}
+	res.Term = lib.List(terms)
+	res.Impl = impl
 	res.NonTrivial = nontrivial
 	for t := range tags {
 		res.Tags = append(res.Tags, t)
@@ -610,7 +648,7 @@ func crashCase(c Case, stderr string) (lib.Result, error) {
 	for i, o := range c.Ops {
 		terms = append(terms, opTerm(o, data[i]))
 	}
-	res.Term = fmt.Sprintf("mkcrash %s %s %s", c.header(), lib.List(terms), kind)
+	res.Term = fmt.Sprintf("[mkcrash %s %s %s]", c.header(), lib.List(terms), kind)
 	lines := strings.Split(strings.TrimSpace(stderr), "\n")
 	msg := ""
 	for _, l := range lines {
@@ -660,7 +698,7 @@ func main() {
 			return crashCase(c, stderr)
 		},
 		Header:   "From Dastard Require Import Common.ZX Common.CaseLib C04.Base C04.Model C04.Spec C04.Run.",
-		Verdict:  "verdict",
+		Verdict:  "verdict_runs",
 		PerShard: 16,
 		Isolate:  true,
 		Chunk:    8,
